@@ -68,6 +68,7 @@ KwDetail(op, c, vs) ==
 Detail(o, vs) ==
   CASE o.kind = "value" -> ViolatedKw(o) \cup (IF NoWitness(o) THEN {"no-witness"} ELSE {})
     [] o.kind = "case" -> {<<p, vs[p], o.c.labels[p]>> : p \in {p \in Parts : Present(o.c, p) \/ o.c.labels[p] # "none" \/ vs[p] = "F"}}
+                          \cup {<<"case", "-", o.c.labels.case>>}
                           \cup (IF o.prop = "C03" THEN {} ELSE KwDetail(Doc.ops[o.opi], o.c, vs))
     [] OTHER -> {}
 Definite(o, vs) ==
